@@ -386,6 +386,46 @@ func ruleOPTCODEC(c *Ctx) {
 			}
 		}
 	}
+	// every (terminal, action) pair of a lookahead row writes its cell: no path around the store
+	for _, lp := range naturalLoops(f) {
+		isRow := false
+		for _, ins := range lp.Header.Instrs {
+			if ifi, ok := ins.(*ssa.If); ok && strings.Contains(vpath(ifi.Cond), "t.Lalr[") {
+				isRow = true
+			}
+		}
+		if !isRow {
+			continue
+		}
+		var sb *ssa.BasicBlock
+		for b := range lp.Body {
+			for _, ins := range b.Instrs {
+				if st, ok := ins.(*ssa.Store); ok {
+					if ia, ok := st.Addr.(*ssa.IndexAddr); ok {
+						if ms, ok := ia.X.(*ssa.MakeSlice); ok && vpath(ms.Len) == "terms" {
+							sb = b
+						}
+					}
+				}
+			}
+		}
+		key := "lalr.Optimize:row-pair-stored"
+		if sb == nil {
+			c.Bad(rule, key, lp.Header.Instrs[0].Pos(), "the loop over a lookahead row's (terminal, action) pairs no longer stores into the row buffer")
+			continue
+		}
+		skipped := false
+		for _, s := range lp.Header.Succs {
+			if lp.Body[s] && s != sb && reachesWithout(s, lp.Header, sb) {
+				skipped = true
+			}
+		}
+		if skipped {
+			c.Bad(rule, key, sb.Instrs[0].Pos(), "some (terminal, action) pair of a lookahead row reaches the next iteration without storing its cell: the cell keeps the unfilled sentinel and, under defaultReduce, receives the default reduction (a nonassoc error becomes a reduction)")
+		} else {
+			c.Ok(rule, key, sb.Instrs[0].Pos(), "every (terminal, action) pair of a lookahead row stores its cell before the next pair is read")
+		}
+	}
 	if nStores < 4 {
 		c.add(rule, "count:next", token.NoPos, CountDropped, true, "only %d stores into the row buffer found (5 confirmed by hand)", nStores)
 	}
